@@ -290,6 +290,7 @@ type BytecodeCompiler struct {
 	callsToOptimise       []*bytecodeCall // calls emitted by this compiler that wait for `optimiseCalls`, they hold bytecode offsets
 	secondToLastOpCode    bytecode.OpCode
 	lastOpCode            bytecode.OpCode
+	lastJumpTarget        int // offset that the most recently patched forward jump lands on
 	parent                *BytecodeCompiler
 	upvalues              bytecodeUpvalues
 	checker               types.Checker
@@ -389,7 +390,7 @@ func (c *BytecodeCompiler) emitReturnNil() {
 
 func (c *BytecodeCompiler) EmitReturn() {
 	location := c.bytecode.Location
-	if c.lastOpCode != bytecode.RETURN {
+	if c.lastOpCode != bytecode.RETURN || c.isJumpTarget() {
 		c.emit(location.EndPos.Line, bytecode.RETURN)
 	}
 	c.prepLocals()
@@ -2174,6 +2175,7 @@ func (c *BytecodeCompiler) patchLoopJumps(continueOffset int) {
 		switch loopJump.typ {
 		case bytecodeBreakFinallyLoopJump:
 			c.bytecode.Values[loopJump.offset] = value.SmallInt(c.nextInstructionOffset()).ToValue()
+			c.lastJumpTarget = c.nextInstructionOffset()
 		case bytecodeContinueFinallyLoopJump:
 			c.bytecode.Values[loopJump.offset] = value.SmallInt(continueOffset).ToValue()
 		case bytecodeBreakLoopJump:
@@ -8598,10 +8600,14 @@ func (c *BytecodeCompiler) emitReturn(location *position.Location, value ast.Nod
 		}
 	}
 
-	switch c.lastOpCode {
-	case bytecode.RETURN, bytecode.RETURN_FIRST_ARG,
-		bytecode.RETURN_SELF, bytecode.RETURN_FINALLY:
-		return
+	if !c.isJumpTarget() {
+		// the previous instruction already leaves the function
+		// and nothing jumps over it, the return would be unreachable
+		switch c.lastOpCode {
+		case bytecode.RETURN, bytecode.RETURN_FIRST_ARG,
+			bytecode.RETURN_SELF, bytecode.RETURN_FINALLY:
+			return
+		}
 	}
 
 	if c.isGenerator {
@@ -8712,6 +8718,15 @@ func (c *BytecodeCompiler) patchJumpWithTarget(target int, offset int, location 
 func (c *BytecodeCompiler) patchJump(offset int, location *position.Location) {
 	target := c.nextInstructionOffset() - offset - 2
 	c.patchJumpWithTarget(target, offset, location)
+	c.lastJumpTarget = c.nextInstructionOffset()
+}
+
+// Whether a forward jump lands on the next instruction that will be emitted.
+// The code at this offset is reachable even when the previous
+// instruction leaves the function.
+func (c *BytecodeCompiler) isJumpTarget() bool {
+	offset := c.nextInstructionOffset()
+	return offset > 0 && c.lastJumpTarget == offset
 }
 
 // Emit an instruction that sets a local variable or value
